@@ -4,7 +4,10 @@
         op = N<v|->:<f|-> V<maj.min> F<f> B<maj.min>:<f> C<f|->:<v|-> W      the API operations of Model/HeaderOps.v
            | X<a>:<x>   header.<attribute> = value; a = v (version) | f (point_format) | r (read-only property) | p (any other
                         attribute); x = v<maj.min> (a version) | f<id> (a point format) | o (anything else)
-        -> per op  ok:<maj.min>:<fmt>  |  err:<maj.min>:<fmt>     (the state after the op) *)
+        -> per op  ok:<maj.min>:<fmt>  |  err:<maj.min>:<fmt>     (the state after the op)
+     route_computed <field name> ...   -> T | F per name (Model/HeaderRoute.v)
+     sync_computed <minor> <name> ...  -> T | F per name: routes through LasData.update_header (waveform pointer computed from 1.4 on)
+     route_computed_names              -> the names, space separated *)
 open Model
 
 let rec pos_of_int n = if n = 1 then XH else if n land 1 = 0 then XO (pos_of_int (n lsr 1)) else XI (pos_of_int (n lsr 1))
@@ -48,9 +51,26 @@ let tok_of_zlist l = if l = [] then "-" else String.concat "," (List.map string_
 
 
 
+(* Coq strings (ExtrOcamlBasic only: string = EmptyString | String of ascii * string) *)
+let explode s = List.init (Stdlib.String.length s) (Stdlib.String.get s)
+let ascii_of_char c = let n = Char.code c in let b i = (n lsr i) land 1 = 1 in
+  Ascii (b 0, b 1, b 2, b 3, b 4, b 5, b 6, b 7)
+let char_of_ascii = function Ascii (b0, b1, b2, b3, b4, b5, b6, b7) ->
+  let v b i = if b then 1 lsl i else 0 in
+  Char.chr (v b0 0 + v b1 1 + v b2 2 + v b3 3 + v b4 4 + v b5 5 + v b6 6 + v b7 7)
+let coq_string_of s = List.fold_right (fun c acc -> String (ascii_of_char c, acc)) (explode s) EmptyString
+let rec string_of_coq = function EmptyString -> "" | String (c, r) -> Stdlib.String.make 1 (char_of_ascii c) ^ string_of_coq r
+
 let dispatch cmd a =
   let zi i = z_of_string a.(i) in
   match cmd with
+  | "route_computed" ->
+    (* route_computed <field name> ... -> T | F per name: does a writing route compute the field itself (Model/HeaderRoute.v)? *)
+    Stdlib.String.concat " " (List.map (fun n -> if route_computed (coq_string_of n) then "T" else "F") (Array.to_list a))
+  | "sync_computed" ->
+    (* sync_computed <version minor> <field name> ... -> T | F per name: computed by a route that goes through LasData.update_header *)
+    Stdlib.String.concat " " (List.map (fun n -> if sync_computed (zi 0) (coq_string_of n) then "T" else "F") (List.tl (Array.to_list a)))
+  | "route_computed_names" -> Stdlib.String.concat " " (List.map string_of_coq route_computed_names)
   | "hrun2" ->
     let ver t = match String.split_on_char '.' t with [x; y] -> (z_of_string x, z_of_string y) | _ -> failwith "version" in
     let optv t = if t = "-" then None else Some (ver t) in
